@@ -14,7 +14,6 @@ import (
 	"os"
 	"path/filepath"
 	"runtime"
-	"sort"
 	"strings"
 	"sync/atomic"
 	"testing"
@@ -24,13 +23,11 @@ import (
 	"github.com/krotik/ecal/interpreter"
 	"github.com/krotik/ecal/parser"
 	"github.com/krotik/ecal/util"
+	"ecalharness/harness/gen07"
 	"simrt"
 )
 
-type plan struct {
-	Input string `json:"input"`
-	Kind  string `json:"kind"` // valid | mutated | truncated | raw
-}
+type plan = gen07.Plan
 
 type violation struct {
 	Property string          `json:"property"`
@@ -185,7 +182,7 @@ func parseAndWalk(input string) outcome {
 		}
 		return outcome{}
 	}
-	if msg := shape(ast, "root"); msg != "" {
+	if msg := gen07.Shape(ast, "root"); msg != "" {
 		return outcome{class: "oracle:tree-shape", sig: "tree-shape/" + strings.SplitN(msg, ":", 2)[0], msg: msg, tree: true}
 	}
 	return outcome{tree: true}
@@ -218,238 +215,6 @@ func walk(input string) (o outcome) {
 	return outcome{tree: true}
 }
 
-// fixed-arity node kinds (language reference: binary operators take two operands,
-// a key-value pair has a key and a value, an assignment a target and a value, ...)
-var arity = map[string][2]int{
-	parser.NodeKVP: {2, 2}, parser.NodeASSIGN: {2, 2}, parser.NodePRESET: {2, 2},
-	parser.NodeGEQ: {2, 2}, parser.NodeLEQ: {2, 2}, parser.NodeNEQ: {2, 2}, parser.NodeEQ: {2, 2}, parser.NodeGT: {2, 2}, parser.NodeLT: {2, 2},
-	parser.NodePLUS: {1, 2}, parser.NodeMINUS: {1, 2}, parser.NodeTIMES: {2, 2}, parser.NodeDIV: {2, 2}, parser.NodeMODINT: {2, 2}, parser.NodeDIVINT: {2, 2},
-	parser.NodeAND: {2, 2}, parser.NodeOR: {2, 2}, parser.NodeNOT: {1, 1},
-	parser.NodeLIKE: {2, 2}, parser.NodeIN: {2, 2}, parser.NodeHASPREFIX: {2, 2}, parser.NodeHASSUFFIX: {2, 2}, parser.NodeNOTIN: {2, 2},
-	parser.NodeLET: {1, 1}, parser.NodeGUARD: {1, 1}, parser.NodeLOOP: {2, 2}, parser.NodeMUTEX: {2, 2}, parser.NodeIMPORT: {2, 2},
-	parser.NodeCOMPACCESS: {1, 1}, parser.NodeRETURN: {0, 1},
-	parser.NodeKINDMATCH: {1, 1}, parser.NodeSCOPEMATCH: {1, 1}, parser.NodeSTATEMATCH: {1, 1}, parser.NodePRIORITY: {1, 1}, parser.NodeSUPPRESSES: {1, 1},
-	parser.NodeOTHERWISE: {1, 1}, parser.NodeFINALLY: {1, 1}, parser.NodeAS: {1, 1},
-	parser.NodeSTRING: {0, 0}, parser.NodeNUMBER: {0, 0}, parser.NodeTRUE: {0, 0}, parser.NodeFALSE: {0, 0}, parser.NodeNULL: {0, 0},
-	parser.NodeBREAK: {0, 0}, parser.NodeCONTINUE: {0, 0},
-}
-
-func shape(n *parser.ASTNode, path string) string {
-	if n == nil {
-		return "nil: nil node at " + path
-	}
-	if n.Name == "" {
-		return "noname: node without a kind at " + path
-	}
-	for i, c := range n.Children {
-		if c == nil {
-			return fmt.Sprintf("nil: nil child %d of %s at %s", i, n.Name, path)
-		}
-	}
-	k := len(n.Children)
-	if a, ok := arity[n.Name]; ok && (k < a[0] || k > a[1]) {
-		return fmt.Sprintf("arity-%s: %s node with %d children (want %d..%d) at %s", n.Name, n.Name, k, a[0], a[1], path)
-	}
-	kindOf := func(i int) string { return n.Children[i].Name }
-	switch n.Name {
-	case parser.NodeMAP:
-		for i := range n.Children {
-			if kindOf(i) != parser.NodeKVP {
-				return fmt.Sprintf("map-child: map literal has a %s child where a key : value pair is required at %s", kindOf(i), path)
-			}
-		}
-	case parser.NodeIF:
-		if k < 2 || k%2 != 0 {
-			return fmt.Sprintf("if-children: if node with %d children (want guard/statements pairs) at %s", k, path)
-		}
-		for i := 0; i < k; i += 2 {
-			if kindOf(i) != parser.NodeGUARD || kindOf(i+1) != parser.NodeSTATEMENTS {
-				return fmt.Sprintf("if-children: if node child pair %d is (%s, %s), want (guard, statements) at %s", i/2, kindOf(i), kindOf(i+1), path)
-			}
-		}
-	case parser.NodeLOOP:
-		if (kindOf(0) != parser.NodeGUARD && kindOf(0) != parser.NodeIN) || kindOf(1) != parser.NodeSTATEMENTS {
-			return fmt.Sprintf("loop-children: loop node children are (%s, %s) at %s", kindOf(0), kindOf(1), path)
-		}
-	case parser.NodeMUTEX:
-		if kindOf(0) != parser.NodeIDENTIFIER || kindOf(1) != parser.NodeSTATEMENTS {
-			return fmt.Sprintf("mutex-children: mutex node children are (%s, %s) at %s", kindOf(0), kindOf(1), path)
-		}
-	case parser.NodeTRY:
-		if k < 1 || kindOf(0) != parser.NodeSTATEMENTS {
-			return fmt.Sprintf("try-children: try node does not start with statements at %s", path)
-		}
-		for i := 1; i < k; i++ {
-			switch kindOf(i) {
-			case parser.NodeEXCEPT, parser.NodeOTHERWISE, parser.NodeFINALLY:
-			default:
-				return fmt.Sprintf("try-children: try node has a %s child at %s", kindOf(i), path)
-			}
-		}
-	case parser.NodeEXCEPT:
-		if k < 1 || kindOf(k-1) != parser.NodeSTATEMENTS {
-			return fmt.Sprintf("except-children: except node does not end with statements at %s", path)
-		}
-		for i := 0; i < k-1; i++ {
-			// error type strings, then at most one `as <identifier>` or a bare identifier
-			// (`except e {`) right before the block
-			if kindOf(i) != parser.NodeSTRING && !((kindOf(i) == parser.NodeAS || kindOf(i) == parser.NodeIDENTIFIER) && i == k-2) {
-				return fmt.Sprintf("except-children: except node has a %s child at position %d of %d at %s", kindOf(i), i, k, path)
-			}
-		}
-	case parser.NodeAS:
-		if kindOf(0) != parser.NodeIDENTIFIER {
-			return fmt.Sprintf("as-children: as node child is %s, want identifier at %s", kindOf(0), path)
-		}
-	case parser.NodeOTHERWISE, parser.NodeFINALLY:
-		if kindOf(0) != parser.NodeSTATEMENTS {
-			return fmt.Sprintf("try-children: %s node child is %s at %s", n.Name, kindOf(0), path)
-		}
-	case parser.NodeFUNC:
-		if k < 2 || kindOf(k-1) != parser.NodeSTATEMENTS || kindOf(k-2) != parser.NodePARAMS {
-			return fmt.Sprintf("function-children: function node with %d children not ending in (params, statements) at %s", k, path)
-		}
-	case parser.NodeSINK:
-		if k < 1 || kindOf(0) != parser.NodeIDENTIFIER {
-			return fmt.Sprintf("sink-children: sink node does not start with its name at %s", path)
-		}
-	case parser.NodeIMPORT:
-		if kindOf(0) != parser.NodeSTRING || kindOf(1) != parser.NodeIDENTIFIER {
-			return fmt.Sprintf("import-children: import node children are (%s, %s) at %s", kindOf(0), kindOf(1), path)
-		}
-	}
-	for i, c := range n.Children {
-		if msg := shape(c, fmt.Sprintf("%s/%s[%d]", path, n.Name, i)); msg != "" {
-			return msg
-		}
-	}
-	return ""
-}
-
-// ---------------------------------------------------------------------------
-// input generation
-
-func stmt(r *simrt.RNG, depth int) string {
-	n := r.Intn(9)
-	a, b := 1+r.Intn(9), 1+r.Intn(9)
-	inner := func() string {
-		if depth >= 2 {
-			return fmt.Sprintf("x%d := %d", n, a)
-		}
-		return stmt(r, depth+1)
-	}
-	ind := func(s string) string { return "    " + strings.ReplaceAll(s, "\n", "\n    ") }
-	switch r.Intn(20) {
-	case 0:
-		return fmt.Sprintf("a%d := {\"x\": %d, \"y\": [%d, %d], %d: null}", n, a, a, b, b)
-	case 1:
-		return fmt.Sprintf("if %d < %d {\n%s\n} elif a%d == %d {\n%s\n} else {\n%s\n}", a, b, ind(inner()), n, b, ind(inner()), ind(inner()))
-	case 2:
-		return fmt.Sprintf("for i in range(%d, %d) {\n%s\n}", a, a+b, ind(inner()))
-	case 3:
-		return fmt.Sprintf("s%d := \"v={{%d+%d}}\\n\" + r\"raw{{x}}\"", n, a, b)
-	case 4:
-		return fmt.Sprintf("for c%d > 0 {\n    c%d := c%d - 1\n    if c%d == %d {\n        break\n    }\n    continue\n}", n, n, n, n, a)
-	case 5:
-		return fmt.Sprintf("func f%d(x, y=%d, z=\"s\") {\n%s\n    return x + y\n}", n, a, ind(inner()))
-	case 6:
-		return fmt.Sprintf("import \"lib%d.ecal\" as lib%d", n, n)
-	case 7:
-		return fmt.Sprintf("try {\n%s\n    raise(\"E%d\", \"x\", [%d])\n} except \"E%d\", \"F\" as e {\n%s\n} except {\n    log(e)\n} otherwise {\n%s\n} finally {\n%s\n}", ind(inner()), a, b, a, ind(inner()), ind(inner()), ind(inner()))
-	case 8:
-		return fmt.Sprintf("l%d := [{\"a\": %d}, [%d, {\"c\": [ ]}], -%d, not true, null]", n, a, b, a)
-	case 9:
-		return fmt.Sprintf("sink s%d\n    kindmatch [\"a.%d.*\"],\n    scopematch [\"s.t\"],\n    statematch {\"k\": %d, \"n\": null},\n    priority %d,\n    suppresses [\"s%d\"]\n{\n%s\n}", n, a, b, a%5, b, ind(inner()))
-	case 10:
-		return fmt.Sprintf("mutex m%d {\n%s\n}", n, ind(inner()))
-	case 11:
-		return fmt.Sprintf("r%d := f%d(%d, g(%d)[%d].k, \"a\")[1].b.c(%d)", n, n, a, b, a, b)
-	case 12:
-		return fmt.Sprintf("b%d := %d >= %d and (x%d != %d or not y like \"a.*\") and %d in [%d] and z notin l and s hasprefix \"p\" and s hassuffix \"q\"", n, a, b, n, a, a, b)
-	case 13:
-		return fmt.Sprintf("n%d := -%d + %d * (%d - %d) / %d // %d %% %d", n, a, b, a, b, a, b, a)
-	case 14:
-		return fmt.Sprintf("# comment %d\nc%d := %d /* inline */ + %d # trailing", a, n, a, b)
-	case 15:
-		return fmt.Sprintf("let v%d := %d\no%d.a.b[%d] := v%d", n, a, n, b, n)
-	case 16:
-		return fmt.Sprintf("[p%d, q%d] := [%d, %d]", n, n, a, b)
-	case 17:
-		return fmt.Sprintf("g%d := func (a) {\n    return a\n}", n)
-	case 18:
-		return fmt.Sprintf("for [k, v] in {\"a\": %d} {\n%s\n}", a, ind(inner()))
-	default:
-		return fmt.Sprintf("return %d", a)
-	}
-}
-
-func validProgram(r *simrt.RNG, tier string) string {
-	n := 1 + r.Intn(5)
-	if tier == "thorough" {
-		n = 1 + r.Intn(12)
-	}
-	var parts []string
-	for i := 0; i < n; i++ {
-		parts = append(parts, stmt(r, 0))
-	}
-	return strings.Join(parts, "\n")
-}
-
-var rawAlphabet = []string{"{", "}", "(", ")", "[", "]", ":=", ":", ",", ".", "\"", "'", "r\"", "{{", "}}", "#", "/*", "*/", "\n", " ", "\t", "\r",
-	"if", "elif", "else", "for", "in", "func", "sink", "try", "except", "finally", "otherwise", "mutex", "import", "as", "let", "return", "and", "or", "not",
-	"a", "b1", "1", "1.5", "-", "+", "*", "/", "//", "%", "==", "!=", ">=", "<", "\\", "\x00", "\x7f", "\xff", "\xc3", "\xe2\x82", "é", "€", "null", "true", "kindmatch", "priority"}
-
-func genInput(r *simrt.RNG, tier string) plan {
-	switch x := r.Intn(100); {
-	case x < 25:
-		return plan{validProgram(r, tier), "valid"}
-	case x < 60:
-		src := validProgram(r, tier)
-		toks := parser.LexToList("gen", src)
-		if len(toks) < 3 {
-			return plan{src, "valid"}
-		}
-		// token boundaries
-		var cuts []int
-		for _, t := range toks {
-			if t.Pos >= 0 && t.Pos <= len(src) {
-				cuts = append(cuts, t.Pos)
-			}
-		}
-		cuts = append(cuts, len(src))
-		sort.Ints(cuts)
-		seg := func(i int) string { return src[cuts[i]:cuts[i+1]] }
-		n := len(cuts) - 1
-		i := r.Intn(n)
-		switch r.Intn(6) {
-		case 0: // delete a token
-			return plan{src[:cuts[i]] + src[cuts[i+1]:], "mutated"}
-		case 1: // duplicate a token
-			return plan{src[:cuts[i+1]] + seg(i) + src[cuts[i+1]:], "mutated"}
-		case 2: // swap two adjacent tokens
-			if i+2 <= n-1 {
-				return plan{src[:cuts[i]] + seg(i+1) + seg(i) + src[cuts[i+2]:], "mutated"}
-			}
-			return plan{src[:cuts[i]], "truncated"}
-		case 3: // stray closer / opener / newline
-			return plan{src[:cuts[i]] + []string{"}", "{", ")", "(", "]", "[", "\n", ","}[r.Intn(8)] + src[cuts[i]:], "mutated"}
-		case 4: // replace a token by a random fragment
-			return plan{src[:cuts[i]] + rawAlphabet[r.Intn(len(rawAlphabet))] + " " + src[cuts[i+1]:], "mutated"}
-		default: // truncate at a token boundary
-			return plan{src[:cuts[i]], "truncated"}
-		}
-	default:
-		n := 1 + r.Intn(30)
-		var b strings.Builder
-		for i := 0; i < n; i++ {
-			b.WriteString(rawAlphabet[r.Intn(len(rawAlphabet))])
-			if r.Bool(0.5) {
-				b.WriteByte(' ')
-			}
-		}
-		return plan{b.String(), "raw"}
-	}
-}
 
 // ---------------------------------------------------------------------------
 
@@ -476,7 +241,7 @@ func explore(t *testing.T, base uint64, from, stride, maxRuns int64, budget time
 			break
 		}
 		r := simrt.NewRNG(simrt.Mix(base, salt(), uint64(i)))
-		p := genInput(r, tier)
+		p := gen07.GenInput(r, tier)
 		o := check(t, p.Input)
 		st.Runs++
 		st.Policies[p.Kind]++
@@ -625,7 +390,7 @@ func minimise(t *testing.T, inPath, outPath string, budget time.Duration) int {
 func selftest(t *testing.T, base uint64, from, runs int64, tier string) int {
 	for i := from; i < from+runs; i++ {
 		r := simrt.NewRNG(simrt.Mix(base, salt(), uint64(i)))
-		p := genInput(r, tier)
+		p := gen07.GenInput(r, tier)
 		o := check(t, p.Input)
 		var h uint64 = 1469598103934665603
 		for k := 0; k < len(p.Input); k++ {
